@@ -166,6 +166,17 @@ Proof.
   - lia.
 Qed.
 
+(* ------------------------------------------------------------------ the array suffixes T[][]... *)
+Lemma array_suffix_loop_post fuel : forall sub l,
+  mu l + 1 <= fuel ->
+  post (fun _ l' => mu l' <= mu l) (array_suffix_loop fuel sub l).
+Proof.
+  induction fuel as [|f IH]; intros sub l Hf; [lia|].
+  cbn [array_suffix_loop]. repeat pstep.
+  - eapply post_weaken; [apply IH; lia|]. cbn. intros. lia.
+  - lia.
+Qed.
+
 (* ------------------------------------------------------------------ the type parser *)
 Definition Qdec (l : lx) {A} : A -> lx -> Prop := fun _ l' => mu l' + 1 <= mu l.
 
@@ -208,7 +219,7 @@ Proof.
       + lia.
       + ntp_fin.
       + ntp_fin. }
-    intros sub lA HA. repeat pstep; lia.
+    intros sub lA HA. eapply post_weaken; [apply array_suffix_loop_post; lia|]. cbn. intros. lia.
   - (* parse_one_type *)
     intros l Hf. cbn [parse_one_type]. unfold Qdec. pstep. end_ih IHl.
   - (* one_type_loop *)
@@ -458,9 +469,73 @@ Proof.
   destruct (frag_step_no_fault fr ln) as [fr' ->]. cbn [rbind]. apply IH.
 Qed.
 
+(* ------------------------------------------------------------------ Stats and Lines stay aligned while reading *)
+Lemma append_alias_last_length stats ct : length (append_alias_last stats ct) = length stats.
+Proof.
+  unfold append_alias_last. destruct (rev stats) as [|lst before] eqn:Er; [reflexivity|].
+  destruct (is_alias lst); [|reflexivity].
+  rewrite app_length, rev_length. cbn [length].
+  rewrite <- (rev_length stats), Er. cbn [length]. lia.
+Qed.
+
+Definition aligned (fr : frag) : Prop := length (f_stats fr) = length (f_lines fr).
+
+Lemma frag_step_aligned fr ln fr' : frag_step fr ln = Ok fr' -> aligned fr -> aligned fr'.
+Proof.
+  destruct ln as [lno text]. unfold frag_step, aligned. intros H Ha.
+  destruct (check_head s_alias_head text) as [[c|]| |]; cbn [rbind] in H; try discriminate H.
+  - destruct (parse_extra_alias_line (mkLx c None)) as [[ct|] l'| | |]; try discriminate H;
+      injection H as <-; [|exact Ha]. cbn [f_stats f_lines]. rewrite append_alias_last_length. exact Ha.
+  - destruct (check_head s_head text) as [[c|]| |]; cbn [rbind] in H; try discriminate H.
+    + destruct (ann_parse_line (fuel_of c) c) as [[s|e]| |]; cbn [rbind] in H; try discriminate H.
+      * destruct s; injection H as <-; cbn [f_stats f_lines]; try exact Ha; rewrite !app_length; cbn [length]; lia.
+      * injection H as <-. exact Ha.
+    + injection H as <-. exact Ha.
+Qed.
+
+Lemma frag_loop_aligned ls : forall fr fr', frag_loop fr ls = Ok fr' -> aligned fr -> aligned fr'.
+Proof.
+  induction ls as [|ln ls IH]; intros fr fr' H Ha; cbn [frag_loop] in H.
+  - injection H as <-. exact Ha.
+  - destruct (frag_step fr ln) as [fr1| |] eqn:E; cbn [rbind] in H; try discriminate H.
+    eapply IH; [exact H|]. eapply frag_step_aligned; eassumption.
+Qed.
+
+(* clearEmpytAlias on aligned Stats / Lines: the slice expressions are in range, and the result is the list of
+   (statement, line) pairs without the aliases that have no type *)
+Definition keep_pair (p : astat * N) : bool := negb (empty_alias (fst p)).
+
+Lemma clear_loop_aligned : forall stats lines, length stats = length lines ->
+  clear_loop stats lines =
+  Ok (map fst (filter keep_pair (combine stats lines)), map snd (filter keep_pair (combine stats lines))).
+Proof.
+  induction stats as [|s r IH]; intros [|x lr] Hlen; cbn [length] in Hlen; try discriminate Hlen; [reflexivity|].
+  cbn [clear_loop combine filter].
+  assert (Hk : keep_pair (s, x) = negb (empty_alias s)) by reflexivity. rewrite Hk.
+  destruct (empty_alias s); cbn [negb].
+  - apply IH. lia.
+  - cbn [tl]. rewrite IH by lia. reflexivity.
+Qed.
+
+Lemma clear_empty_alias_ok fr : aligned fr -> exists fr', clear_empty_alias fr = Ok fr' /\ aligned fr'.
+Proof.
+  intros Ha. unfold clear_empty_alias. rewrite (clear_loop_aligned _ _ Ha). cbn [rbind fst snd].
+  eexists. split; [reflexivity|]. unfold aligned. cbn [f_stats f_lines]. rewrite !map_length. reflexivity.
+Qed.
+
 (* ParseCommentFragment: for every list of comment lines (arbitrary bytes) it returns; no panic escapes *)
 Theorem parse_fragment_no_fault : forall lines, exists fr, parse_fragment lines = Ok fr.
 Proof.
-  intros lines. unfold parse_fragment. destruct (frag_loop_no_fault lines (mkFrag [] [] [])) as [fr ->].
-  cbn [rbind]. eauto.
+  intros lines. unfold parse_fragment. destruct (frag_loop_no_fault lines (mkFrag [] [] [])) as [fr Hfr].
+  rewrite Hfr. cbn [rbind].
+  destruct (clear_empty_alias_ok fr (frag_loop_aligned lines _ _ Hfr eq_refl)) as (fr' & -> & _). eauto.
+Qed.
+
+(* ... and Lines[i] is the line of Stats[i]: the two slices have the same length for ALL inputs *)
+Theorem parse_fragment_aligned : forall lines fr, parse_fragment lines = Ok fr -> aligned fr.
+Proof.
+  intros lines fr. unfold parse_fragment. destruct (frag_loop_no_fault lines (mkFrag [] [] [])) as [fr0 Hfr].
+  rewrite Hfr. cbn [rbind].
+  destruct (clear_empty_alias_ok fr0 (frag_loop_aligned lines _ _ Hfr eq_refl)) as (fr' & -> & Ha).
+  intros H. injection H as <-. exact Ha.
 Qed.
